@@ -21,7 +21,7 @@ What contracts can say about it (speclib, both semantics):
   alist_same(a, b)      a and b are the same concatenation of the same atoms (concrete True / False)
 
 Hooked from interp.py (`fresh` for the type string `AbsList`, `_comp` for the splice, `truthy`) and
-intrinsics.py (`len`, `dict.get`-independent: the four spec functions) on lines marked `# abslist`.
+intrinsics.py (`len`, the four spec functions) on lines marked `# abslist`.
 """
 from __future__ import annotations
 
